@@ -213,12 +213,21 @@ func flowStream(prop string, r *hx.Rand, tier string, n int, w *bufio.Writer) ma
 			gate = newC04xGate()
 			cfg.WrapStorage = gate.wrap
 		}
+		var c7 *c07fState // deep4-C07: storage faults / concurrent refreshes inside the refresh chains (c07fault.go)
+		var gate7 *c07Gate
+		if prop == "C07" {
+			c7 = &c07fState{prop: prop, stats: stats}
+			if r.Chance(35) {
+				gate7 = newC07Gate()
+				cfg.WrapStorage = gate7.wrap
+			}
+		}
 		bed, err := opbed.New(cfg)
 		if err != nil {
 			panic(err)
 		}
 		cls := flowClientsCross()
-		if prop == "C04" { // deep3-C04: access-token type per registration (c04x.go)
+		if prop == "C04" || (prop == "C07" && r.Chance(40)) { // deep3-C04: access-token type per registration (c04x.go)
 			c04xPrepare(r, cls, stats)
 		}
 		for _, fc := range cls {
@@ -562,12 +571,18 @@ func flowStream(prop string, r *hx.Rand, tier string, n int, w *bufio.Writer) ma
 			wr.basic = basic
 			wr.describe(l)
 			granted := byID[caller.c.ID] != nil && containsStr(grantStrings(caller.c.Grants), "refresh_token")
+			if c7 != nil { // deep4-C07
+				c7.arm(bed, r, wr.shape, len(scopes) == 0 || (rt != nil && tok == rt.token && len(scopes) == len(rt.scopes) && subsetStr(scopes, rt.scopes)))
+			}
 			waitClearOfSecondEdge()
 			t0 := time.Now()
 			resp := bed.Do(wr.request("/oauth/token"))
 			t1 := time.Now()
 			l.I("now0", t0.UnixNano()).I("now1", t1.UnixNano())
 			nrt := flowTokenObs(bed, l, resp, &rts)
+			if c7 != nil { // deep4-C07: where the fault hit, what the body carried, what the storage did
+				c7.observe(bed, l, resp, &rts, func(id string) bool { return byID[id] != nil && byID[id].c.TokenType == op.AccessTokenTypeJWT })
+			}
 			for _, x := range rts { // whatever token the request ended up rotating is gone now
 				if !x.dead && bed.Store.Refresh(x.token) == nil {
 					x.dead = true
@@ -808,6 +823,26 @@ func flowStream(prop string, r *hx.Rand, tier string, n int, w *bufio.Writer) ma
 		if prop == "C04" { // deep3-C04: scripted openings of c04x.go (faults at the k-th storage call, races, redirect_uri / PKCE near-misses)
 			c04xScenarios(&c04xCtx{prop: prop, tier: tier, r: r, bed: bed, sy: sy, cls: cls, byID: byID, stats: stats, gate: gate,
 				emit: emit, caseNo: &caseNo, doLogin: doLogin, doCallback: doCallback})
+		}
+		if prop == "C07" { // deep4-C07: scripted openings of c07fault.go (fault sweep over every storage call of a refresh, concurrent refreshes)
+			c07fScenarios(&c07fCtx{prop: prop, tier: tier, r: r, bed: bed, sy: sy, cls: cls, byID: byID, stats: stats, f: c7, gate: gate7,
+				emit: emit, caseNo: &caseNo, rts: &rts, doRefresh: doRefresh,
+				grant: func(scopes string) (*flowClient, *issuedRT) {
+					var elig []*flowClient
+					for _, fc := range cls {
+						if containsStr(grantStrings(fc.c.Grants), "refresh_token") && containsStr(grantStrings(fc.c.Grants), "authorization_code") {
+							elig = append(elig, fc)
+						}
+					}
+					fc := elig[r.Intn(len(elig))]
+					if id := doAuthorize(fc, scopes, false, false, ""); id != "" {
+						doLogin(id)
+						if ic := doCallback(id, false); ic != nil {
+							return fc, doExchange(*ic, fc, ic.redirect, ic.verifier, ic.real, ic.label, false)
+						}
+					}
+					return fc, nil
+				}})
 		}
 		nops := 4 + r.Intn(maxOps)
 		for o := 0; o < nops; o++ {
